@@ -40,6 +40,6 @@ def queries(tier):
     return qs
 
 MANIFEST = {
-    "text": "Message ownership and memory safety decided on the real protocol, queue and message code: in every skeleton a successful send leaves no message on the aio and a failed one leaves the caller's message, every message is released exactly once (reference-count monitor), option changes between the halves of an exchange (REQ resend time, buffer sizes, PREFNEW, unsubscribe) cause no double free or leak, and close+fini returns every message and block with the size it was allocated with; CBMC's pointer, bounds and double-free checks are on in every query. Socket objects: the real nni_sock_create / sock_destroy return every block with the size it was allocated with (sized-free accounting; also when an allocation inside creation fails). Also: the protocol's sock_fini never runs on protocol state that sock_init has not initialised (finding F33).",
+    "text": "Message ownership and memory safety decided on the real protocol, queue and message code: in every skeleton a successful send leaves no message on the aio and a failed one leaves the caller's message, every message is released exactly once (reference-count monitor), option changes between the halves of an exchange (REQ resend time, buffer sizes, PREFNEW, unsubscribe) cause no double free or leak, and close+fini returns every message and block with the size it was allocated with; CBMC's pointer, bounds and double-free checks are on in every query. Socket objects: the real nni_sock_create / sock_destroy return every block with the size it was allocated with (sized-free accounting; also when an allocation inside creation fails). Also: the protocol's sock_fini never runs on protocol state that sock_init has not initialised (finding F33). Stream transports: a message cut short in the middle (peer dies / receive aborted) is released exactly once when the pipe is torn down.",
     "note": "Covers the encoded units only (protocols, queues, message, the stream transports' transfer / cancel / mid-message failure paths, socket create / destroy).",
 }
